@@ -49,6 +49,9 @@ pub const GEOMS_LARGE: &[(u32, u32, u32)] = &[
     (65, 34, 1),
 ];
 
+/// just beyond the parameter cap of 9999 (one dimension only, to keep snapshots affordable)
+pub const GEOMS_HUGE: &[(u32, u32, u32)] = &[(10_001, 1, 2), (10_050, 2, 1), (1, 10_001, 1), (2, 10_003, 1), (9_999, 1, 1), (10_000, 1, 1)];
+
 pub const GEOMS_ALL: &[(u32, u32, u32)] = &[
     (4, 3, 5),
     (5, 4, 6),
@@ -190,20 +193,36 @@ pub const NARROW: &[char] = &[
     // spacing combining marks: marks, but with display width 1, so they take a cell
     '\u{903}', '\u{93e}', '\u{bbf}',
 ];
-pub const WIDE: &[char] =
-    &['\u{4e2d}', '\u{6587}', '\u{ff21}', '\u{d55c}', '\u{3042}', '\u{1f600}'];
+pub const WIDE: &[char] = &[
+    '\u{4e2d}', '\u{6587}', '\u{ff21}', '\u{d55c}', '\u{3042}', '\u{1f600}',
+    // first / last code points of double-width ranges
+    '\u{1100}', '\u{115f}', '\u{2e80}', '\u{3041}', '\u{ac00}', '\u{d7a3}', '\u{f900}', '\u{ff01}', '\u{ff60}',
+    '\u{ffe0}', '\u{1f300}', '\u{20000}', '\u{3fffd}', '\u{ff15}',
+];
+/// narrow characters chosen by property rather than by script: changed by NFC, numeric but not
+/// an ASCII digit, or with a low byte equal to a syntactically significant ASCII byte (so that
+/// a truncating cast turns them into BEL, CAN, ESC, a digit, `;`, `?`, `[`, `\`, `]`, CSI ...)
+pub const ODD_NARROW: &[char] = &[
+    '\u{2126}', '\u{212a}', '\u{212b}', '\u{37e}', '\u{2000}', '\u{2001}', '\u{1f71}', '\u{663}', '\u{2460}',
+    '\u{b2}', '\u{bd}', '\u{969}', '\u{107}', '\u{118}', '\u{11a}', '\u{11b}', '\u{130}', '\u{131}', '\u{132}',
+    '\u{139}', '\u{13b}', '\u{13f}', '\u{15b}', '\u{15c}', '\u{15d}', '\u{19b}', '\u{19c}', '\u{19d}', '\u{10a}',
+    '\u{10d}', '\u{120}', '\u{124}', '\u{13e}', '\u{171}', '\u{148}',
+    // the one character unicode-width reports as three cells wide
+    '\u{17d8}',
+];
 pub const COMBINING: &[char] = &['\u{301}', '\u{308}', '\u{20dd}', '\u{e31}', '\u{fe0f}'];
 pub const ZERO: &[char] = &['\u{200b}', '\u{200d}', '\u{feff}', '\u{2060}'];
 /// unprintable characters that are not special to the recogniser
 pub const UNPRINT: &[char] = &['\u{0}', '\u{1}', '\u{7f}', '\u{18}', '\u{1a}', '\u{80}', '\u{85}', '\u{9f}'];
 
 pub fn text_char(src: &mut Src) -> char {
-    match src.weighted(&[56, 16, 12, 5, 6]) {
+    match src.weighted(&[52, 16, 12, 5, 6, 6]) {
         0 => *src.pick(NARROW),
         1 => *src.pick(WIDE),
         2 => *src.pick(COMBINING),
         3 => *src.pick(ZERO),
-        _ => *src.pick(UNPRINT),
+        4 => *src.pick(UNPRINT),
+        _ => *src.pick(ODD_NARROW),
     }
 }
 
@@ -213,8 +232,19 @@ pub const LONG_LENGTHS: &[u32] = &[15, 16, 17, 31, 32, 33, 63, 64, 65, 100, 127,
 /// a long run of plain narrow characters
 pub fn long_run(src: &mut Src) -> String {
     let n = *src.pick(LONG_LENGTHS) as usize;
-    let pat: &[char] = src.pick::<&[char]>(&[&['a'], &['a', 'b', 'c', 'd', 'e', 'f', 'g'], &['x', ' '], &['0', '1', ';', '2'], &['\u{e9}', 'z']]);
-    (0..n).map(|i| pat[i % pat.len()]).collect()
+    let pat: &[char] = src.pick::<&[char]>(&[
+        &['a'],
+        &['a', 'b', 'c', 'd', 'e', 'f', 'g'],
+        &['x', ' '],
+        &['0', '1', ';', '2'],
+        &['\u{e9}', 'z'],
+        &['\u{301}'],
+        &['\u{308}', '\u{301}', '\u{20dd}'],
+        &['\u{feff}', 'a'],
+    ]);
+    let lead = if pat[0] == '\u{301}' || pat[0] == '\u{308}' { "o" } else { "" };
+    let body: String = (0..n).map(|i| pat[i % pat.len()]).collect();
+    format!("{}{}", lead, body)
 }
 
 pub fn text(src: &mut Src, max: u32) -> String {
@@ -247,7 +277,10 @@ const SGR_DOC: &[u32] = &[
 ];
 
 pub fn sgr_list(src: &mut Src) -> Vec<u32> {
-    let n = src.weighted(&[2, 10, 8, 5, 3, 2, 1, 1]);
+    let mut n = src.weighted(&[2, 10, 8, 5, 3, 2, 1, 1, 1]);
+    if n == 8 {
+        n = *src.pick(&[15usize, 16, 17, 31, 32, 33, 40, 64, 65]);
+    }
     let mut out = Vec::new();
     for _ in 0..n {
         match src.weighted(&[10, 4, 4, 2, 2]) {
@@ -380,7 +413,13 @@ fn group_ops(src: &mut Src, g: usize, cols: u32, lines: u32, p: &Profile, out: &
             1 => out.push(Op::Rc),
             2 => {
                 // deep stacks: a burst of saves (around powers of two)
-                let k = *src.pick(&[2u32, 3, 7, 8, 9, 15, 16, 17, 31, 32, 33, 64]);
+                // the very deep stacks only in the long-history sub-checks (snapshots of the
+                // whole stack at every step make them expensive)
+                let k = if p.max_ops >= 100 {
+                    *src.pick(&[2u32, 3, 7, 8, 9, 15, 16, 17, 31, 32, 33, 64, 65, 128, 255, 256, 257, 1023, 1024, 1025])
+                } else {
+                    *src.pick(&[2u32, 3, 7, 8, 9, 15, 16, 17, 31, 32, 33, 64, 65])
+                };
                 for _ in 0..k {
                     out.push(Op::Sc);
                 }
@@ -572,9 +611,11 @@ fn csi_param(src: &mut Src) -> String {
     match src.weighted(&[6, 14, 6, 2, 2, 1, 2]) {
         6 => {
             // boundary values around machine-integer widths: 2^k + d
-            let k = *src.pick(&[8u32, 15, 16, 24, 31, 32, 33, 48, 63, 64, 65, 80]);
-            let d = *src.pick(&[-1i64, 0, 1, 5, 9998, 10000]);
-            let v: u128 = ((1u128 << k) as i128 + d as i128) as u128;
+            // m * 2^k + d: values that alias small meaningful numbers after a narrowing cast
+            let k = *src.pick(&[8u32, 15, 16, 24, 27, 31, 32, 33, 48, 63, 64, 65, 80]);
+            let m = *src.pick(&[1u128, 1, 1, 2, 3, 5, 7]);
+            let d = *src.pick(&[-1i64, 0, 1, 2, 3, 4, 5, 6, 7, 20, 25, 38, 9998, 9999, 10000]);
+            let v: u128 = ((m << k) as i128 + d as i128) as u128;
             v.to_string()
         }
         0 => String::new(),
@@ -627,7 +668,11 @@ pub fn token(src: &mut Src, wellformed: bool, out: &mut String) {
             if src.chance(40) {
                 out.push('?');
             }
-            let n = src.weighted(&[6, 10, 6, 3, 1, 1, 1]);
+            let mut n = src.weighted(&[6, 10, 6, 3, 1, 1, 1, 1]);
+            if n == 7 {
+                // very long parameter lists (around typical fixed-size parameter arrays)
+                n = *src.pick(&[15usize, 16, 17, 31, 32, 33, 40, 64, 65, 100]);
+            }
             for i in 0..n {
                 if i > 0 {
                     out.push(';');
@@ -639,7 +684,13 @@ pub fn token(src: &mut Src, wellformed: bool, out: &mut String) {
                     ]));
                 }
             }
-            match src.weighted(&[40, 5, 3, 3]) {
+            match src.weighted(&[40, 5, 3, 3, 3]) {
+                4 => {
+                    // a non-ASCII character where a final is expected (it is an unknown final),
+                    // followed by a character that would be a final if the sequence were still open
+                    out.push(*src.pick(ODD_NARROW));
+                    out.push(*src.pick(&['H', 'm', 'a', '1']));
+                }
                 0 => out.push(*src.pick(FINALS_SUPPORTED)),
                 1 => out.push(*src.pick(FINALS_UNSUPPORTED)),
                 2 => {
@@ -688,7 +739,7 @@ pub fn osc(src: &mut Src, wellformed: bool, out: &mut String) {
         1 => "1".into(),
         2 => "2".into(),
         3 => src.pick(&["3", "4", "5", "6", "7", "8", "9"]).to_string(),
-        4 => src.pick(&["a", "L", "l", "I", "z"]).to_string(),
+        4 => src.pick(&["a", "L", "l", "I", "z", "\u{130}", "\u{131}", "\u{132}", "\u{ff10}", "\u{661}", "\u{b2}", "\u{e9}"]).to_string(),
         _ => src.pick(&["10", "11", "52", "104", "133", "12", "21", "777"]).to_string(),
     };
     out.push_str(&code);
@@ -703,7 +754,10 @@ pub fn osc(src: &mut Src, wellformed: bool, out: &mut String) {
             0 => out.push(*src.pick(&[
                 'a', 'b', 'Z', ' ', ';', '\\', ']', '[', '0', '7', ':', '/', '~', '"', '?',
             ])),
-            1 => out.push(*src.pick(&['\u{e9}', '\u{4e2d}', '\u{416}', '\u{1f600}', '\u{301}'])),
+            1 => out.push(*src.pick(&[
+                '\u{e9}', '\u{4e2d}', '\u{416}', '\u{1f600}', '\u{301}', '\u{feff}', '\u{2126}', '\u{11b}', '\u{107}', '\u{19c}',
+                '\u{15c}', '\u{200b}',
+            ])),
             2 => {
                 out.push('\x1b');
                 out.push(*src.pick(&['x', '[', ']', '(', 'c', '0']));
@@ -812,6 +866,8 @@ pub fn big_bytes(src: &mut Src, unit_items: u32) -> Vec<u8> {
     ];
     let target = *src.pick(&sizes) as usize + src.below(3) as usize;
     let mut out = Vec::with_capacity(target + 64);
+    // sometimes the whole input sits inside a string or sequence that is (still) open
+    out.extend_from_slice(src.pick::<&[u8]>(&[b"", b"", b"", b"\x1b]2;", b"\x1b]", b"\x1b[", b"\x1b]0;t\x1b", b"\xc2\x9d1;"]));
     let k = 1 + src.below(3);
     let units: Vec<Vec<u8>> = (0..k).map(|_| utf8_soup(src, unit_items)).collect();
     let filler: &[u8] = src.pick::<&[u8]>(&[b"a", b"ab\r\n", b"\xc3\xa9", b"\xe4\xb8\xad", b"x\x1b[1mY", b"\xf0\x9f\x98\x80z"]);
